@@ -399,8 +399,17 @@ func outgoingContext(c Case) context.Context {
 	if len(c.Req) == 0 {
 		return ctx
 	}
-	if c.ReqMode == "append" {
+	switch c.ReqMode {
+	case "append":
 		for _, p := range flat(c.Req) {
+			ctx = metadata.AppendToOutgoingContext(ctx, p[0], p[1])
+		}
+		return ctx
+	case "new+append":
+		// the first pair with NewOutgoingContext, every further pair appended (also to the first pair's key)
+		ps := flat(c.Req)
+		ctx = metadata.NewOutgoingContext(ctx, metadata.MD{ps[0][0]: {ps[0][1]}})
+		for _, p := range ps[1:] {
 			ctx = metadata.AppendToOutgoingContext(ctx, p[0], p[1])
 		}
 		return ctx
@@ -427,6 +436,9 @@ func (w *worker) drive(cc grpc.ClientConnInterface, c Case, id string) (obs obse
 	var opts []grpc.CallOption
 	for i := 0; i < c.Opts; i++ {
 		opts = append(opts, grpc.Header(&obs.hdrOpts[i]), grpc.Trailer(&obs.trlOpts[i]))
+	}
+	if len(c.Creds) > 0 {
+		opts = append(opts, grpc.PerRPCCredentials(staticCreds(c.credsMap())))
 	}
 	req := wrapperspb.String(id)
 	if c.Kind == "U" {
